@@ -722,6 +722,9 @@ func genC07(out *Out, r *Rng, tier string, n int, shard int) {
 	for i := 0; i < 2*n; i++ {
 		emitRegistryScenes(out, r, i%2 == 1)
 	}
+	for i := 0; i < 2*n; i++ {
+		emitForgedDocumentLists(out, r)
+	}
 }
 
 func init() { gens["C07"] = genC07 }
